@@ -684,3 +684,4 @@ RENAME_FUNCS = [(F, 'note_sequence_to_pretty_midi'), (F, 'midi_to_note_sequence'
 EXPLANATION += (' Location-independent additions: GROUP/sort-refines-group-key (groupby key vs sort key), ORD/instrument-order (instruments appended in storage-derived order; PrettyMIDI.write keeps list order), FIELDS/<container> reader coverage through add(field=...) and helpers.')
 EXPLANATION += (' Round 6: ' + "PITFALL/stale-sibling (two names unpacked from element 0 of the iterated sequence, one advanced in the loop, the other not); TEMPO/tick-from-table (the tick of a tempo change comes from time_to_tick on the rebuilt table, not from the previous change's stored time).")
 EXPLANATION += (' Round 7: ' + "PITFALL/wrapper-default (a forwarded parameter keeps the callee's default); FIELDS/reader-keeps-every-event (no signature event is skipped on numerator / denominator).")
+EXPLANATION += (' Rounds 9-10: ' + 'FRESH/instrument-per-group located when the reuse branch changes nothing its condition reads; LIMIT/reader-max-tick (the module-level MAX_TICK override folds to at least the pinned 1e10).')
